@@ -442,6 +442,16 @@ def rule_fresh(ctx) -> RuleResult:
             res.find("Concatenator", "copy", f"{unparse(t)[:40]} filled from {unparse(v)[:40]}", f"{cp.module.relpath}:{a.lineno}",
                      "the copy's concatenated tables are the source's own arrays: removing or updating an entry in the copy shifts the start "
                      "indices of the source in place")
+    for a in ast.walk(cp.node):
+        if isinstance(a, ast.Assign) and isinstance(a.targets[0], ast.Attribute) and unparse(a.targets[0].value) == "new_entity" and isinstance(a.value, ast.Attribute) \
+                and unparse(a.value.value) == "self":
+            ok = False
+            res.inst(f"Concatenator.copy:{a.lineno} {unparse(a)[:70]} (source's own container handed to the copy)", nontrivial=True, ok=ok)
+            res.find("Concatenator", "copy", f"{unparse(a.targets[0])} shares the source's {a.value.attr} container", f"{cp.module.relpath}:{a.lineno}",
+                     f"the copy's {a.targets[0].attr} is the source's own dict / list: adding or removing entities in the copy edits the source's "
+                     "records in place (and its file at the next close)")
+        elif isinstance(a, ast.Assign) and isinstance(a.targets[0], ast.Attribute) and unparse(a.targets[0].value) == "new_entity" and "self." in unparse(a.value):
+            res.inst(f"Concatenator.copy:{a.lineno} {unparse(a)[:70]} (copied)", nontrivial=True, ok=is_fresh(a.value) or unparse(a.value).startswith(("deepcopy(", "list(", "dict(")))
     # (c) no cast of the stored values
     ua = p.func("Concatenator.update_array_attribute")
     stores = [a for a in ast.walk(ua.node) if isinstance(a, ast.Assign) and unparse(a.targets[0]).startswith("self.data[")]
